@@ -119,7 +119,7 @@ func glueRender(p *tak.Position, ret tak.Move, r *fpa.VerifGlueRec) string {
 
 // glueRun executes a glue line; probe: the real check engine answers and each call reports its verdicts instead
 // (`obs=<v1>:<d1>:<v2>`, `obs=-` when it was not consulted) - used by the generator only.
-func glueRun(a []string, probe bool) string {
+func glueRun(a []string, probe bool) (ret string) {
 	if len(a) < 6 {
 		return "bad-op"
 	}
@@ -143,6 +143,14 @@ func glueRun(a []string, probe bool) string {
 	}
 	defer v.Close()
 	var out []string
+	// on a tree without fixes/C07-fpa-record-notes.diff: a call used rule notes that are not those of the record
+	// (known finding C07-fpa-resume-panic; never printed by the model, never set on a patched tree)
+	outOfStep := false
+	defer func() {
+		if outOfStep {
+			ret = "notes-" + ret
+		}
+	}()
 	for _, tok := range a[6:] {
 		switch {
 		case strings.HasPrefix(tok, "m"):
@@ -168,6 +176,9 @@ func glueRun(a []string, probe bool) string {
 			if over, _ := p.GameOver(); over {
 				out = append(out, "over")
 				continue
+			}
+			if !probe && v.VerifNotesOutOfStep(p) {
+				outOfStep = true
 			}
 			var word string
 			panicked := false
